@@ -229,6 +229,9 @@ impl<'builder> Builder<'builder> {
 
         let s = match self.s {
             Some(k) => {
+                if k.len() > s_dh.priv_len() {
+                    return Err(InitStage::ValidateKeyLengths.into());
+                }
                 (*s_dh).set(k);
                 Toggle::on(s_dh)
             },
@@ -243,6 +246,9 @@ impl<'builder> Builder<'builder> {
         let mut rs_buf = [0_u8; MAXDHLEN];
         let rs = match self.rs {
             Some(v) => {
+                if v.len() > rs_buf.len() {
+                    return Err(InitStage::ValidateKeyLengths.into());
+                }
                 rs_buf[..v.len()].copy_from_slice(v);
                 Toggle::on(rs_buf)
             },
